@@ -67,7 +67,7 @@ def quoteText (s : String) : String :=
 
 /-- the lexer's verdict used by `write_ident`: the text is exactly one identifier token, itself -/
 def plainIdent (cc : Lex.CharClass) (name : String) : Bool :=
-  Lex.lex cc name.toList == [.ident name, .eof]
+  Lex.lex cc name.toList == [.ident name, .eof] && !name.startsWith ">"
 
 mutual
 /-- `recurse(expr, fmt, prec)` -/
